@@ -17,6 +17,7 @@ import (
 	"strconv"
 	"strings"
 	"sync"
+	"sync/atomic"
 	"time"
 
 	"golang.org/x/tools/go/packages"
@@ -312,6 +313,11 @@ func explore(ld *loaded, entries []*ssa.Function, cfg *Config, workers int, maxP
 					st.queries += fb.queries
 					st.solverS += fb.dur.Seconds()
 				}
+				if ex.intSolver != nil {
+					st.queries += ex.intSolver.queries
+					st.solverS += ex.intSolver.dur.Seconds()
+					st.fallback["cvc5-int:incremental-queries"] += ex.intSolver.queries
+				}
 				for f := range ex.funcsSeen {
 					st.funcs[shortFn(f.String())] = true
 				}
@@ -356,6 +362,8 @@ type nativeOutcome struct {
 	Runs    []nativeOutcome `json:"runs"`
 	Crash   string          `json:"crash,omitempty"`
 }
+
+var batchCounter int64
 
 type replayer struct {
 	work   string
@@ -467,7 +475,7 @@ func (r *replayer) runBatch(tp targetPkg, vecs []replayVector, timeout time.Dura
 	if err := r.build(tp); err != nil {
 		return nil, "", err
 	}
-	in := filepath.Join(r.work, fmt.Sprintf("in-%d.json", time.Now().UnixNano()))
+	in := filepath.Join(r.work, fmt.Sprintf("in-%d-%s.json", atomic.AddInt64(&batchCounter, 1), vecs[0].ID))
 	out := in + ".out"
 	b, _ := json.Marshal(vecs)
 	os.WriteFile(in, b, 0o644)
@@ -791,6 +799,21 @@ func runCheck(mode string, args []string) {
 		}
 	}
 
+	if os.Getenv("VERIF_DUMPPATHS") != "" {
+		for _, r := range st.results {
+			fmt.Printf("PATH %s outcome=%s inputs=%v prefix=%v\n", r.Detail, r.Outcome, r.Inputs, r.Prefix)
+			for i, e := range r.Events {
+				v, id := "", e.ID
+				if i < len(r.EventVal) {
+					v = r.EventVal[i]
+				}
+				if i < len(r.EventID) {
+					id = r.EventID[i]
+				}
+				fmt.Printf("    %s %s = %s\n", e.Kind, id, v)
+			}
+		}
+	}
 	// ---- native replay
 	type pending struct {
 		res *PathResult
@@ -842,11 +865,23 @@ func runCheck(mode string, args []string) {
 			byT[p.tp.name] = append(byT[p.tp.name], p)
 		}
 		for tn, ps := range byT {
-			var vecs []replayVector
+			// witnesses and counterexamples run in separate processes: a counterexample may kill its process
+			var wvecs, cvecs []replayVector
 			for _, p := range ps {
-				vecs = append(vecs, p.vec)
+				if p.ce == nil {
+					wvecs = append(wvecs, p.vec)
+				} else {
+					cvecs = append(cvecs, p.vec)
+				}
 			}
-			outs, err := rp.run(targets[tn], vecs)
+			outs, err := rp.run(targets[tn], wvecs)
+			if err == nil {
+				var couts map[string]*nativeOutcome
+				couts, err = rp.run(targets[tn], cvecs)
+				for k, v := range couts {
+					outs[k] = v
+				}
+			}
 			if err != nil {
 				broken = append(broken, "native replay unavailable: "+err.Error())
 				continue
